@@ -76,7 +76,54 @@ pub fn tree_entries(t: &Value, out: &mut Vec<Value>) {
     tree_entries(&a[4], out);
 }
 
+/// C15 on an observed tree: every child strictly longer than, covered by, and on the side selected by the
+/// next bit of its parent; the root is the zero-length prefix
+pub fn tree_wf(t: &Value) -> Option<String> {
+    fn bits(v: &Value) -> Vec<u64> {
+        v.as_array().map(|a| a.iter().map(|b| b.as_u64().unwrap_or(9)).collect()).unwrap_or_default()
+    }
+    fn go(t: &Value, depth: usize) -> Option<String> {
+        let a = t.as_array()?;
+        if a.is_empty() {
+            return None;
+        }
+        if a.len() < 5 {
+            return Some("the trie is deeper than width + 1 or has more nodes than slots (cycle / shared node)".into());
+        }
+        let pn = bits(&a[0]);
+        for (side, c) in [(0u64, &a[3]), (1u64, &a[4])] {
+            let ca = c.as_array()?;
+            if ca.is_empty() {
+                continue;
+            }
+            if ca.len() < 5 {
+                return Some("the trie is deeper than width + 1 or has more nodes than slots (cycle / shared node)".into());
+            }
+            let cn = bits(&ca[0]);
+            if cn.len() <= pn.len() {
+                return Some(format!("child {:?} is not longer than its parent {:?}", cn, pn));
+            }
+            if cn[..pn.len()] != pn[..] {
+                return Some(format!("child {:?} is not covered by its parent {:?}", cn, pn));
+            }
+            if cn[pn.len()] != side {
+                return Some(format!("child {:?} hangs on the wrong side of {:?}", cn, pn));
+            }
+            if let Some(e) = go(c, depth + 1) {
+                return Some(e);
+            }
+        }
+        None
+    }
+    let a = t.as_array()?;
+    if a.len() >= 5 && !bits(&a[0]).is_empty() {
+        return Some("the root is not the zero-length prefix".into());
+    }
+    go(t, 0)
+}
+
 pub struct Step {
+    pub reach: usize,
     pub ret: Value,
     pub pan: bool,
     pub tree: Value,
@@ -90,6 +137,7 @@ pub struct Step {
 pub fn observe<P: PT, C: Coll<P>>(c: &C, ctx: &Ctx, o: Outcome) -> Step {
     let s = c.snap();
     Step {
+        reach: s.table_len.saturating_sub(s.free.len()),
         ret: o.ret,
         pan: o.pan,
         tree: c.tree(ctx),
@@ -102,7 +150,7 @@ pub fn observe<P: PT, C: Coll<P>>(c: &C, ctx: &Ctx, o: Outcome) -> Step {
 }
 
 /// Compare one executed step with the row; push one mismatch record per differing facet.
-pub fn compare(row: &Value, ctx: &Ctx, st: &Step, is_set: bool, dr: i64) -> Vec<(String, Value, Value)> {
+pub fn compare(row: &Value, ctx: &Ctx, st: &Step, is_set: bool, dr: i64, pre_tree: &Value, pre_alen: u64) -> Vec<(String, Value, Value)> {
     let mut mm = vec![];
     let exp_ret = ctx.norm(&row["r"]);
     let exp_pan = row["pn"].as_bool().unwrap_or(false);
@@ -128,12 +176,31 @@ pub fn compare(row: &Value, ctx: &Ctx, st: &Step, is_set: bool, dr: i64) -> Vec<
             mm.push(("tree".into(), exp_tree.clone(), st.tree.clone()));
         }
     }
+    // C15, on the code's own observations: well-formedness, and no shape change where the event is value-only
+    if let Some(d) = tree_wf(&st.tree) {
+        mm.push(("wf".into(), json!("well-formed trie"), json!(d)));
+    }
+    let from_tree = ctx.norm_tree(&row["f"]);
+    if shape(&exp_tree) == shape(&from_tree) && shape(&st.tree) != shape(pre_tree) {
+        mm.push(("shape_changed".into(), shape(pre_tree), shape(&st.tree)));
+    }
     let x = &row["x"];
-    if st.acct[0] != x[0] {
+    // the accounting is a function of the shape: compared only where the shape is the expected one
+    let same_shape = shape(&exp_tree) == shape(&st.tree);
+    if same_shape && st.acct[0] != x[0] {
         mm.push(("alen".into(), x[0].clone(), st.acct[0].clone()));
     }
-    if st.acct[1] != x[1] {
+    if same_shape && st.acct[1] != x[1] {
         mm.push(("nfree".into(), x[1].clone(), st.acct[1].clone()));
+    }
+    // C16, on the code's own observations: the arena grows only when no slot is free (clear excepted)
+    let cleared = x[0].as_u64().unwrap_or(0) < row["fx"][0].as_u64().unwrap_or(0);
+    if st.partition.is_none() && !cleared {
+        let alen = st.acct[0].as_u64().unwrap_or(0);
+        let want = pre_alen.max(st.reach as u64);
+        if alen != want {
+            mm.push(("grow".into(), json!(want), json!(alen)));
+        }
     }
     if st.acct[2] != x[2] {
         mm.push(("count".into(), x[2].clone(), st.acct[2].clone()));
@@ -280,7 +347,13 @@ pub fn replay_rows<P: PT, C: Coll<P>>(
         if dr != 0 {
             rep.drift_rows += 1;
         }
-        let mm = compare(&row, ctx, &st, C::IS_SET, dr);
+        if row.get("f").is_none() {
+            row["f"] = f.clone();
+            row["fx"] = fx.clone();
+        }
+        let pre_tree = c0.tree(ctx);
+        let pre_alen = c0.snap().table_len as u64;
+        let mm = compare(&row, ctx, &st, C::IS_SET, dr, &pre_tree, pre_alen);
         if rep.samples.len() < 3 && rep.executed % 4999 == 2500 {
             rep.samples.push(json!({"h": row["h"], "e": row["e"], "r": st.ret, "t": st.tree, "x": st.acct}));
         }
@@ -296,7 +369,7 @@ pub fn replay_rows<P: PT, C: Coll<P>>(
             *n += 1;
             if *n <= 4 && rep.mismatches.len() < max_mismatch * 8 {
                 rep.mismatches.push(json!({"kind": kind, "h": row["h"], "e": row["e"], "expected": exp, "got": got,
-                    "row": {"r": row["r"], "pn": row["pn"], "t": row["t"], "x": row["x"], "f": f, "fx": fx}}));
+                    "row": {"r": row["r"], "pn": row["pn"], "t": row["t"], "x": row["x"], "f": f, "fx": fx, "cn": row.get("cn")}}));
             }
         }
     }
